@@ -507,6 +507,95 @@ def _forward_tuples(fn) -> bool:
     return changed
 
 
+def _expand_quantifiers(fn) -> bool:
+    """all(E(v) for v in [a, b, c])  ->  E(a) and E(b) and E(c)   (any -> or), also when the display reaches the call through a
+    local that was bound to it once and whose elements (names / constants / attribute chains) are not re-bound in between.
+    all() / any() stop at the first deciding element exactly as and / or do; E must be call-free apart from type predicates."""
+    calls = [c for c in ast.walk(fn) if isinstance(c, ast.Call) and isinstance(c.func, ast.Name) and c.func.id in ("all", "any")
+             and len(c.args) == 1 and not c.keywords and isinstance(c.args[0], (ast.GeneratorExp, ast.ListComp))
+             and len(c.args[0].generators) == 1 and not c.args[0].generators[0].ifs and not c.args[0].generators[0].is_async
+             and isinstance(c.args[0].generators[0].target, ast.Name)]
+    if not calls:
+        return False
+    cfg = rd = None
+    changed = False
+    parents = {}
+    for p_ in ast.walk(fn):
+        for c_ in ast.iter_child_nodes(p_):
+            parents[id(c_)] = p_
+    for c in calls:
+        g = c.args[0].generators[0]
+        elt = c.args[0].elt
+        v = g.target.id
+        if any(isinstance(y, ast.Call) and not (isinstance(y.func, ast.Name) and y.func.id in _PURE_PREDICATES | {"len"})
+               for y in ast.walk(elt)) or any(isinstance(y, (ast.Lambda, ast.ListComp, ast.GeneratorExp, ast.SetComp, ast.DictComp,
+                                                                ast.NamedExpr, ast.Await, ast.Yield, ast.YieldFrom))
+                                              for y in ast.walk(elt)):
+            continue
+        disp = None
+        if isinstance(g.iter, (ast.List, ast.Tuple)):
+            disp = g.iter
+        elif isinstance(g.iter, ast.Name):
+            if cfg is None:
+                from .cfg import CFG
+                try:
+                    cfg = CFG(fn)
+                except Exception:  # pragma: no cover
+                    return changed
+                rd = cfg.reaching()
+            n = cfg.node_of(c)
+            if n is None:
+                continue
+            defs = rd.get(n, {}).get(g.iter.id, set())
+            if len(defs) != 1:
+                continue
+            (d,) = defs
+            dst = cfg.nodes[d].ast if cfg.nodes[d].kind == "stmt" else None
+            if not (isinstance(dst, ast.Assign) and len(dst.targets) == 1 and isinstance(dst.targets[0], ast.Name)
+                    and isinstance(dst.value, (ast.List, ast.Tuple))):
+                continue
+            names_ = {y.id for e in dst.value.elts for y in ast.walk(e) if isinstance(y, ast.Name)}
+            if any(rd.get(d, {}).get(x, set()) != rd.get(n, {}).get(x, set()) for x in names_):
+                continue
+            # the list object itself must not be changed in between: only reads of the local
+            if any(isinstance(y, ast.Name) and y.id == g.iter.id and not isinstance(y.ctx, ast.Load) and y is not dst.targets[0]
+                   for y in ast.walk(fn)):
+                continue
+            if any(isinstance(y, ast.Attribute) and isinstance(y.value, ast.Name) and y.value.id == g.iter.id
+                   and y.attr in ("append", "extend", "insert", "pop", "remove", "clear", "sort", "reverse") for y in ast.walk(fn)):
+                continue
+            disp = dst.value
+        if disp is None or not (1 <= len(disp.elts) <= 6) or not all(_is_chain(e) or isinstance(e, ast.Constant) for e in disp.elts):
+            continue
+
+        class _S(ast.NodeTransformer):
+            def __init__(self, rep_):
+                self.rep_ = rep_
+
+            def visit_Name(self, node):
+                if node.id == v and isinstance(node.ctx, ast.Load):
+                    return ast.copy_location(copy.deepcopy(self.rep_), node)
+                return node
+        vals = [_S(e).visit(copy.deepcopy(elt)) for e in disp.elts]
+        new = vals[0] if len(vals) == 1 else ast.BoolOp(op=ast.And() if c.func.id == "all" else ast.Or(), values=vals)
+        def _boolean(e):
+            if isinstance(e, ast.Compare) or (isinstance(e, ast.UnaryOp) and isinstance(e.op, ast.Not)):
+                return True
+            if isinstance(e, ast.BoolOp):
+                return all(_boolean(x) for x in e.values)
+            return isinstance(e, ast.Call) and isinstance(e.func, ast.Name) and e.func.id in _PURE_PREDICATES
+        if len(vals) == 1 or not _boolean(elt):
+            new = ast.Call(func=ast.Name(id="bool", ctx=ast.Load()), args=[new], keywords=[])
+        par = parents.get(id(c))
+        if par is None:
+            continue
+        _replace_child(par, c, ast.copy_location(new, c))
+        changed = True
+    if changed:
+        ast.fix_missing_locations(fn)
+    return changed
+
+
 def _forward_slices(fn) -> bool:
     """'s = slice(a, b, c); ...; x[s]'  ->  'x[a:b:c]' when that call is the only definition of s reaching the subscript and its
     arguments are not re-bound in between."""
@@ -783,6 +872,7 @@ def _forward_flags(fn) -> bool:
 def normalise_function(fn):
     _normalise_function_once(fn)
     _forward_getattr_methods(fn)
+    _expand_quantifiers(fn)
     _forward_flags(fn)
     t = _forward_tuples(fn)
     sl = _forward_slices(fn)
